@@ -2,6 +2,8 @@ import J5V.Print.TextStringProofs
 import J5V.Print.RefNameProofs
 import J5V.Print.OrderProofs
 import J5V.Print.OptionTextProofs
+import J5V.Print.LayoutProofs
+import J5V.Print.Grammar
 /-!
 # C05 — generated .proto text re-parses to the descriptor it was printed from
 
@@ -369,8 +371,8 @@ theorem C05_reparse_partial (R : Reader) (f : KFile)
   simp
 
 /-- Printing what was read reproduces the same names and literals (the kernel part of "printing
-that result again reproduces the same text"). -/
-theorem C05_reprint_fixed (R : Reader) (f : KFile)
+that result again reproduces the same text"; the layout part is `C05_reprint_fixed` below). -/
+theorem C05_reprint_kernels (R : Reader) (f : KFile)
     (hrefs : ∀ r ∈ f.refs, RefName.SymtabWF f.tab r.only r.tgtPkg r.tgt)
     (hstr : ∀ s ∈ f.strings, TextString.IsBytes s)
     (tgts : List RefName.Path) (strs : List (List Nat))
@@ -409,5 +411,100 @@ example : ∃ f : KFile, f.refs.length = 2 ∧ f.strings = [[0, 34, 0xFF], [0xC3
       rcases hr with rfl | rfl
       · exact okTab_wf
       · exact okTab_wf_cross, by decide⟩
+
+/-! ## 6. the whole printer: printing the re-parsed result reproduces the same text
+
+`Layout.printFile` is a model of all of `protoprint.PrintFile` above the kernels — element walk,
+sorting, gaps, comments, option statements, field options, imports, file options — over an abstract
+element tree (`Layout.FileD`: file → messages / enums / services → fields / values / methods →
+options, every element with its source location and comments). It is compared with the real
+printer on every file of the `print.file` stream. -/
+
+open Layout in
+/-- **Printing is a fixed point** ("printing that result again reproduces the same text"), for
+every descriptor without source information (what `j5convert` builds before comments are attached;
+fix 63476fb made the statement true): let `d'` be the file a reader of the printed text finds —
+the elements of `d` in printed order, every element and option with the source lines of the text,
+no comments (`relaidFile`). Then the printer writes for `d'` exactly the lines it wrote for `d`.
+
+`relaidFile` asks of the locations only what holds of any faithful reading of the printed text:
+start lines increase in printed order; two consecutive elements are more than a line apart only
+where the printer leaves a gap anyway (after a block or a method, at a change of kind); an option
+that can be written on one line was on one line; a single in-line field option was in line. That the
+grammar model `Grammar.parseFile` (validated against protocompile on every `print.file` op) reads
+the printed text this way is checked on concrete files below and by the stream, not yet proved for
+all files. -/
+theorem C05_reprint_fixed (gen : String) (d d' : FileD) (hu : d.unloc) (hr : relaidFile d.arranged d') :
+    printFile gen d' = printFile gen d :=
+  printFile_reprint gen d d' hu hr
+
+/-! non-vacuity: a file with imports, a file option, a service with a method option, a message with
+an option, fields (one with an in-line option, one repeated), a nested message and a nested enum -/
+section example_file
+open Layout OptionText
+
+def exOpt (name : String) (v : Opt) : SOpt := ⟨name, [v], false, false, false, 0, 0, name⟩
+
+def exFile : FileD :=
+  ⟨Loc.none, "p.v1", ["a.proto"], [exOpt "go_package" (.scalar "go_package" "\"x/y\"")], [],
+   [ .block "message" 1 Loc.none 0 "M" [exOpt "(j5.ext.v1.message).object" (.msg "object" [])]
+       [ .field ⟨.field, Loc.none, 0, "", "string", "a", 1, some "a", [exOpt "(x.v1.f).min" (.scalar "min" "1")]⟩,
+         .field ⟨.field, Loc.none, 1, "repeated ", "E", "b_c", 2, some "bC", []⟩,
+         .block "enum" 2 Loc.none 0 "E" [] [ .field ⟨.value, Loc.none, 0, "", "", "E_UNSPECIFIED", 0, none, []⟩,
+                                            .field ⟨.value, Loc.none, 1, "", "", "E_X", 1, none, []⟩ ],
+         .block "message" 1 Loc.none 0 "N" [] [] ],
+     .block "service" 0 Loc.none 0 "S" []
+       [ .rpc Loc.none 0 "Get" "M" "M.N" [exOpt "(google.api.http)" (.msg "http" [.scalar "get" "\"/a\""])] ] ]⟩
+
+
+def lo (s e : Nat) : Loc := ⟨s, e, [], "", ""⟩
+def exOptL (name : String) (v : Opt) (inl : Bool) (line : Nat) : SOpt := ⟨name, [v], true, true, inl, line, 0, ""⟩
+
+/-- the arranged file -/
+def exArr : FileD :=
+  ⟨Loc.none, "p.v1", ["a.proto"], [exOpt "go_package" (.scalar "go_package" "\"x/y\"")], [],
+   [ .block "service" 0 Loc.none 0 "S" []
+       [ .rpc Loc.none 0 "Get" "M" "M.N" [exOpt "(google.api.http)" (.msg "http" [.scalar "get" "\"/a\""])] ],
+     .block "message" 1 Loc.none 0 "M" [exOpt "(j5.ext.v1.message).object" (.msg "object" [])]
+       [ .field ⟨.field, Loc.none, 0, "", "string", "a", 1, some "a", [exOpt "(x.v1.f).min" (.scalar "min" "1")]⟩,
+         .field ⟨.field, Loc.none, 1, "repeated ", "E", "b_c", 2, some "bC", []⟩,
+         .block "message" 1 Loc.none 0 "N" [] [],
+         .block "enum" 2 Loc.none 0 "E" [] [ .field ⟨.value, Loc.none, 0, "", "", "E_UNSPECIFIED", 0, none, []⟩,
+                                            .field ⟨.value, Loc.none, 1, "", "", "E_X", 1, none, []⟩ ] ] ]⟩
+
+example : exFile.arranged = exArr := by rfl
+
+/-- what a reader of the printed text finds (lines as printed above) -/
+def exRead : FileD :=
+  ⟨Loc.none, "p.v1", ["a.proto"], [exOptL "go_package" (.scalar "" "\"x/y\"") false 9], [],
+   [ .block "service" 0 (lo 11 15) 0 "S" []
+       [ .rpc (lo 12 14) 0 "Get" "M" "M.N" [exOptL "(google.api.http)" (.msg "" [.scalar "get" "\"/a\""]) false 13] ],
+     .block "message" 1 (lo 17 29) 0 "M" [exOptL "(j5.ext.v1.message).object" (.msg "" []) false 18]
+       [ .field ⟨.field, lo 20 20, 0, "", "string", "a", 1, some "a", [exOptL "(x.v1.f).min" (.scalar "" "1") true 20]⟩,
+         .field ⟨.field, lo 21 21, 0, "repeated ", "E", "b_c", 2, some "bC", []⟩,
+         .block "message" 1 (lo 23 23) 0 "N" [] [],
+         .block "enum" 2 (lo 25 28) 0 "E" [] [ .field ⟨.value, lo 26 26, 0, "", "", "E_UNSPECIFIED", 0, none, []⟩,
+                                            .field ⟨.value, lo 27 27, 0, "", "", "E_X", 1, none, []⟩ ] ] ]⟩
+
+example : exFile.unloc := by
+  simp [FileD.unloc, exFile, Loc.isNone, Loc.none, unlocList, Item.unloc, FieldD.unloc, exOpt]
+
+example : relaidFile exArr exRead := by
+  simp [relaidFile, exArr, exRead, relaidKids, relaid, fieldOk, optsOk, optOk, Loc.noComments, lo, exOpt, exOptL,
+    Item.loc, Item.typeOrder, Item.gapEnder, eraseKeys, eraseKids, SOpt.single, SOpt.inl, sortStrings,
+    Order.locLess_irrefl, Order.isort, Order.insertBy, Loc.none]
+
+/-- the text of the example and of its reading are the same -/
+example : printFile "gen" exRead = printFile "gen" exFile :=
+  C05_reprint_fixed "gen" exFile exRead
+    (by simp [FileD.unloc, exFile, Loc.isNone, Loc.none, unlocList, Item.unloc, FieldD.unloc, exOpt])
+    (by
+      have h : exFile.arranged = exArr := by rfl
+      rw [h]
+      simp [relaidFile, exArr, exRead, relaidKids, relaid, fieldOk, optsOk, optOk, Loc.noComments, lo, exOpt, exOptL,
+        Item.loc, Item.typeOrder, Item.gapEnder, eraseKeys, eraseKids, SOpt.single, SOpt.inl, sortStrings,
+        Order.locLess_irrefl, Order.isort, Order.insertBy, Loc.none])
+
+end example_file
 
 end J5V.Props.C05
